@@ -1,7 +1,575 @@
+/-
+Line-protocol drivers for the C15 models.  Each driver runs the model's *atomic steps* (Model/C15.lean,
+about which the theorems are proved) composed exactly the way the real node composes them between two
+script operations of the single-threaded harnesses (harness/c15/*.cpp): `handle_operations` + `order()`
++ the forwarding task run by `wait_for_all()`.
+-/
 import TbbVerif.Core.Proto
+import TbbVerif.Model.C15
 
-open TbbVerif
+open TbbVerif TbbVerif.C15
 
-def drivers : List (String × Proto.Driver) := []
+namespace C15Drv
+open Proto
+
+def showSlot : Slot → String
+  | none => "_"
+  | some (v, false) => toString v
+  | some (v, true) => toString v ++ "*"
+
+def commaSep (xs : List String) : String := if xs.isEmpty then "-" else ",".intercalate xs
+def spaceSep (xs : List String) : String := if xs.isEmpty then "-" else " ".intercalate xs
+
+def rawChar : Slot → String
+  | none => "."
+  | some (_, false) => "h"
+  | some (_, true) => "r"
+
+def dumpBuf (b : ItemBuf) : String :=
+  s!"{b.head} {b.tail} {b.arr.length} | {commaSep (b.view.map showSlot)} | {String.join (b.arr.map rawChar)}"
+
+/-- successor verdict: mode 0 accepts everything, mode m ≥ 1 rejects the values divisible by m -/
+def accepts (m v : Nat) : Bool := m == 0 || v % m != 0
+def firstAcc (succs : List Nat) (v : Nat) : Option Nat := succs.findIdx? (fun m => accepts m v)
+def allAcc (succs : List Nat) (v : Nat) : List Nat :=
+  (List.range succs.length).filter (fun i => accepts (succs.getD i 1) v)
+
+/-! ### c15ib — white-box item_buffer -/
+
+structure IbD where
+  b : ItemBuf := ItemBuf.empty
+  reserved : Bool := false
+
+def ibRes (d : IbD) (r : String) : IbD × String := (d, s!"{r} | {dumpBuf d.b}")
+
+def driveIb (d : IbD) (ws : List String) : IbD × String :=
+  match ws with
+  | ["reset"] => ibRes {} "ok"
+  | ["push", v] => match nat? v with
+    | some v => ibRes { d with b := d.b.pushBack v } "ok"
+    | none => (d, "bad-op")
+  | ["popf"] => match d.b.popFront with
+    | some (v, b') => ibRes { d with b := b' } (toString v)
+    | none => ibRes d "-"
+  | ["popb"] => match d.b.popBack with
+    | some (v, b') => ibRes { d with b := b' } (toString v)
+    | none => ibRes d "-"
+  | ["resf"] =>
+    if d.reserved then ibRes d "-" else
+    match d.b.reserveFront with
+    | some (v, b') => ibRes { b := b', reserved := true } (toString v)
+    | none => ibRes d "-"
+  | ["relf"] =>
+    if !d.reserved then (d, "bad-op") else
+    match d.b.releaseFront with
+    | some b' => ibRes { b := b', reserved := false } "ok"
+    | none => (d, "ub")
+  | ["conf"] =>
+    if !d.reserved then (d, "bad-op") else
+    match d.b.consumeFront with
+    | some (_, b') => ibRes { b := b', reserved := false } "ok"
+    | none => (d, "ub")
+  | ["grow", m] => match nat? m with
+    | some m => if m ≤ 4096 then ibRes { d with b := d.b.grow m } "ok" else (d, "bad-op")
+    | none => (d, "bad-op")
+  | ["ext", t] => match nat? t with
+    | some t =>
+      if d.b.tail ≤ t ∧ t ≤ d.b.head + d.b.arr.length then ibRes { d with b := { d.b with tail := t } } "ok"
+      else (d, "bad-op")
+    | none => (d, "bad-op")
+  | ["place", i, v] => match nat? i, nat? v with
+    | some i, some v =>
+      if d.b.head ≤ i ∧ i < d.b.tail then
+        if d.b.valid i then ibRes d "0" else ibRes { d with b := d.b.setSlot i (some (v, false)) } "1"
+      else (d, "bad-op")
+    | _, _ => (d, "bad-op")
+  | _ => (d, "bad-op")
+
+/-! ### c15buf — buffer_node / queue_node / sequencer_node with scripted successors -/
+
+def seqOf (v : Nat) : Nat := v / 8
+
+structure NodeD where
+  kind  : Kind := .queue
+  mode  : Nat := 0
+  st    : BufSt := {}
+  succs : List Nat := []
+
+def itemValid (k : Kind) (s : BufSt) : Bool :=
+  match k with
+  | .buffer => s.buf.valid (s.buf.tail - 1)
+  | _ => s.buf.valid s.buf.head
+
+def cand (k : Kind) (s : BufSt) : Nat :=
+  match k with
+  | .buffer => s.buf.back.getD 0
+  | _ => s.buf.front.getD 0
+
+/-- the `for (; counter > 0 && is_item_valid(); --counter) try_put_and_add_task(last_task)` loop -/
+def fwdInner (k : Kind) (mode : Nat) (succs : List Nat) : Nat → BufSt → Bool → List String → BufSt × Nat × Bool × List String
+  | 0, s, last, dl => (s, 0, last, dl)
+  | c + 1, s, last, dl =>
+    if itemValid k s then
+      let x := cand k s
+      match firstAcc succs x with
+      | some r => fwdInner k mode succs c (bufStep k mode seqOf s (.fwd true)).1 true (dl ++ [s!"r{r}:{x}"])
+      | none => fwdInner k mode succs c (bufStep k mode seqOf s (.fwd false)).1 last dl
+    else (s, c + 1, last, dl)
+
+/-- `forward_task()`: rounds of try_fwd_task while the status is SUCCEEDED -/
+def fwdRounds (k : Kind) (mode : Nat) (succs : List Nat) : Nat → BufSt → List String → BufSt × List String
+  | 0, s, dl => (s, dl)
+  | fuel + 1, s, dl =>
+    if s.reserved || !itemValid k s then ({ s with busy := false }, dl)
+    else
+      let (s1, c, last, dl1) := fwdInner k mode succs succs.length s false dl
+      if last && c == 0 then fwdRounds k mode succs fuel s1 dl1 else ({ s1 with busy := false }, dl1)
+
+def showOut : BufOut → String
+  | .ok => "ok" | .rejected => "rej" | .none => "-" | .ub => "ub"
+  | .item v => toString v
+  | .offered v a => s!"off{v}:{showBool a}"
+
+def nodeOp (d : NodeD) (op : BufOp) (tryFwd : BufOut → Bool) : NodeD × String :=
+  if d.st.ub then (d, "ub") else
+  let (s1, o) := bufStep d.kind d.mode seqOf d.st op
+  if s1.ub then ({ d with st := s1 }, "ub") else
+  let (s2, dl) :=
+    if tryFwd o && !s1.busy then
+      fwdRounds d.kind d.mode d.succs (s1.buf.tail - s1.buf.head + 2) { s1 with busy := true } []
+    else (s1, [])
+  ({ d with st := s2 }, s!"{showOut o} ; {spaceSep dl} ; {showBool s2.reserved} {showBool s2.busy} | {dumpBuf s2.buf}")
+
+def driveBuf (d : NodeD) (ws : List String) : NodeD × String :=
+  match ws with
+  | "reset" :: kind :: mode :: ms =>
+    match (match kind with | "buffer" => some Kind.buffer | "queue" => some Kind.queue | "seq" => some Kind.sequencer | _ => none),
+          nat? mode, nats? ms with
+    | some k, some mode, some ms => ({ kind := k, mode := mode, st := {}, succs := ms }, "ok")
+    | _, _, _ => (d, "bad-op")
+  | ["mode", r, m] => match nat? r, nat? m with
+    | some r, some m => if r < d.succs.length then ({ d with succs := d.succs.set r m }, "ok") else (d, "bad-op")
+    | _, _ => (d, "bad-op")
+  | ["put", v] => match nat? v with
+    | some v => nodeOp d (.put v) (fun o => o == .ok)
+    | none => (d, "bad-op")
+  | ["get"] => nodeOp d .get (fun _ => false)
+  | ["reserve"] => nodeOp d .reserve (fun _ => false)
+  | ["release"] => if d.st.reserved || d.st.ub then nodeOp d .release (fun _ => true) else (d, "bad-op")
+  | ["consume"] => if d.st.reserved || d.st.ub then nodeOp d .consume (fun _ => true) else (d, "bad-op")
+  | _ => (d, "bad-op")
+
+/-! ### c15prio — priority_queue_node, incl. white-box multi-operation aggregator batches -/
+
+structure PrioD where
+  st    : PrioSt := {}
+  succs : List Nat := []
+
+def prioInner (succs : List Nat) : Nat → PrioSt → Bool → List String → PrioSt × Nat × Bool × List String
+  | 0, s, last, dl => (s, 0, last, dl)
+  | c + 1, s, last, dl =>
+    if s.data.length > 0 then
+      let x := s.prio
+      match firstAcc succs x with
+      | some r => prioInner succs c (prioStep s (.fwd true)).1 true (dl ++ [s!"r{r}:{x}"])
+      | none => prioInner succs c s last dl
+    else (s, c + 1, last, dl)
+
+def prioRounds (succs : List Nat) : Nat → PrioSt → List String → PrioSt × List String
+  | 0, s, dl => (s, dl)
+  | fuel + 1, s, dl =>
+    if s.resv.isSome || s.data.length == 0 then ({ s with busy := false }.order, dl)
+    else
+      let (s1, c, last, dl1) := prioInner succs succs.length s false dl
+      let s2 := s1.order
+      if last && c == 0 then prioRounds succs fuel s2 dl1 else ({ s2 with busy := false }, dl1)
+
+def parsePrioOp (w : String) : Option PrioOp :=
+  if w == "g" then some .get else if w == "r" then some .reserve
+  else if w == "l" then some .release else if w == "c" then some .consume
+  else if w.startsWith "p" then (nat? (w.drop 1).toString).map PrioOp.put else none
+
+/-- one aggregator batch: the ops in list order, then `order()`, then the forwarding decision -/
+def prioBatch (d : PrioD) (ops : List PrioOp) : PrioD × String :=
+  let step := fun (acc : PrioSt × List String × Bool × Bool) (op : PrioOp) =>
+    let (s, rs, tf, bad) := acc
+    let pre := match op with
+      | .release => s.resv.isSome | .consume => s.resv.isSome | _ => true
+    if !pre then (s, rs, tf, true) else
+    let (s', o) := prioStep s op
+    let tf' := match op with | .put _ => true | .release => true | .consume => true | _ => tf
+    (s', rs ++ [showOut o], tf', bad)
+  let (s1, rs, tf, bad) := ops.foldl step (d.st, [], false, false)
+  if bad then (d, "bad-op") else
+  let s2 := s1.order
+  let (s3, dl) :=
+    if tf && !s2.busy then prioRounds d.succs (s2.data.length + 2) { s2 with busy := true } [] else (s2, [])
+  ({ d with st := s3 },
+   s!"{commaSep rs} ; {spaceSep dl} ; {showBool s3.resv.isSome} {showBool s3.busy} | {s3.mark} | {commaSep (s3.data.map toString)}")
+
+def drivePrio (d : PrioD) (ws : List String) : PrioD × String :=
+  match ws with
+  | "reset" :: ms => match nats? ms with
+    | some ms => ({ st := {}, succs := ms }, "ok")
+    | none => (d, "bad-op")
+  | ["mode", r, m] => match nat? r, nat? m with
+    | some r, some m => if r < d.succs.length then ({ d with succs := d.succs.set r m }, "ok") else (d, "bad-op")
+    | _, _ => (d, "bad-op")
+  | "batch" :: ops => match ops.mapM parsePrioOp with
+    | some ops => if ops.isEmpty then (d, "bad-op") else prioBatch d ops
+    | none => (d, "bad-op")
+  | _ => (d, "bad-op")
+
+/-! ### c15lim — limiter_node; the first successor sends the nested decrements while it is being offered -/
+
+structure LimD where
+  st    : LimSt := { threshold := 1 }
+  succs : List Nat := []
+
+def limDump (s : LimSt) : String := s!"{s.count} {s.tries} {s.future}"
+
+def driveLim (d : LimD) (ws : List String) : LimD × String :=
+  match ws with
+  | "reset" :: th :: ms => match nat? th, nats? ms with
+    | some th, some ms => ({ st := { threshold := th }, succs := ms }, "ok")
+    | _, _ => (d, "bad-op")
+  | ["mode", r, m] => match nat? r, nat? m with
+    | some r, some m => if r < d.succs.length then ({ d with succs := d.succs.set r m }, "ok") else (d, "bad-op")
+    | _, _ => (d, "bad-op")
+  | ["dec", x] => match int? x with
+    | some x => let s := (limStep d.st (.dec x)).1; ({ d with st := s }, s!"- ; - ; {limDump s}")
+    | none => (d, "bad-op")
+  | "put" :: v :: ds => match nat? v, ds.mapM int? with
+    | some v, some ds =>
+      match limStep d.st (.begin true) with
+      | (s1, .admitted) =>
+        let s2 := if d.succs.isEmpty then s1 else ds.foldl (fun s x => (limStep s (.dec x)).1) s1
+        let who := allAcc d.succs v
+        let s3 := (limStep s2 (.verdict (!who.isEmpty))).1
+        let s4 := (limStep s3 (if who.isEmpty then .endFail else .endOk)).1
+        ({ d with st := s4 }, s!"{showBool (!who.isEmpty)} ; {spaceSep (who.map (fun r => s!"r{r}:{v}"))} ; {limDump s4}")
+      | (s1, _) => ({ d with st := s1 }, s!"0 ; - ; {limDump s1}")
+    | _, _ => (d, "bad-op")
+  | _ => (d, "bad-op")
+
+/-! ### c15lq — queue_node → limiter_node → always-accepting sink (push/pull edge protocol as coded) -/
+
+structure LqD where
+  st    : LimSt := { threshold := 1 }
+  q     : List Nat := []
+  pull  : Bool := false        -- the edge queue→limiter is in pull mode (queue sits in my_predecessors)
+
+def lqDump (d : LqD) : String :=
+  s!"{limDump d.st} | {commaSep (d.q.map toString)} | {showBool d.pull}"
+
+/-- the queue's forwarding task while the edge is in push mode -/
+def lqPush : Nat → LqD → List String → LqD × List String
+  | 0, d, dl => (d, dl)
+  | fuel + 1, d, dl =>
+    match d.q with
+    | [] => (d, dl)
+    | v :: rest =>
+      match limStep d.st (.begin true) with
+      | (s1, .admitted) =>
+        let s2 := (limStep (limStep s1 (.verdict true)).1 .endOk).1
+        lqPush fuel { d with st := s2, q := rest } (dl ++ [s!"r0:{v}"])
+      | (s1, _) => ({ d with st := s1, pull := true }, dl)      -- rejected: register_predecessor, edge flips
+
+/-- the limiter's forward_task chain while the edge is in pull mode -/
+def lqPull : Nat → LqD → List String → LqD × List String
+  | 0, d, dl => (d, dl)
+  | fuel + 1, d, dl =>
+    if !d.pull then (d, dl) else
+    match limStep d.st (.begin true) with
+    | (s1, .admitted) =>
+      match d.q with
+      | [] =>      -- try_reserve fails: edge back to push mode
+        let s2 := (limStep (limStep s1 (.verdict false)).1 .endFail).1
+        ({ d with st := s2, pull := false }, dl)
+      | v :: rest =>
+        let s2 := (limStep (limStep s1 (.verdict true)).1 .endOk).1
+        lqPull fuel { d with st := s2, q := rest } (dl ++ [s!"r0:{v}"])
+    | (s1, _) => ({ d with st := s1 }, dl)
+
+def driveLq (d : LqD) (ws : List String) : LqD × String :=
+  match ws with
+  | ["reset", th] => match nat? th with
+    | some th => ({ st := { threshold := th }, q := [], pull := false }, "ok")
+    | none => (d, "bad-op")
+  | ["put", v] => match nat? v with
+    | some v =>
+      let d1 := { d with q := d.q ++ [v] }
+      let (d2, dl) := if d1.pull then (d1, []) else lqPush (d1.q.length + 1) d1 []
+      (d2, s!"1 ; {spaceSep dl} ; {lqDump d2}")
+    | none => (d, "bad-op")
+  | ["dec", x] => match int? x with
+    | some x =>
+      let d1 := { d with st := (limStep d.st (.dec x)).1 }
+      let (d2, dl) := lqPull (d1.q.length + 2) d1 []
+      (d2, s!"- ; {spaceSep dl} ; {lqDump d2}")
+    | none => (d, "bad-op")
+  | _ => (d, "bad-op")
+
+/-! ### c15jq — queueing join_node -/
+
+structure JqD where
+  st    : JqSt := jqInit 2
+  succs : List Nat := []
+
+def showTuple (t : List Nat) : String := "(" ++ ",".intercalate (t.map toString) ++ ")"
+def tsum (t : List Nat) : Nat := t.foldl (· + ·) 0
+
+def jqDump (s : JqSt) : String :=
+  s!"{s.pwni} | " ++ " / ".intercalate (s.ports.map (fun q => commaSep (q.map toString)))
+
+def jqFwd (succs : List Nat) : Nat → JqSt → List String → JqSt × List String
+  | 0, s, dl => (s, dl)
+  | fuel + 1, s, dl =>
+    match jqStep s (.fwd false) with
+    | (_, .tuple t _) =>
+      let who := allAcc succs (tsum t)
+      if who.isEmpty then (s, dl)
+      else jqFwd succs fuel (jqStep s (.fwd true)).1 (dl ++ who.map (fun r => s!"r{r}:{showTuple t}"))
+    | _ => (s, dl)
+
+def driveJq (d : JqD) (ws : List String) : JqD × String :=
+  match ws with
+  | "reset" :: n :: ms => match nat? n, nats? ms with
+    | some n, some ms => if n = 2 ∨ n = 3 then ({ st := jqInit n, succs := ms }, "ok") else (d, "bad-op")
+    | _, _ => (d, "bad-op")
+  | ["mode", r, m] => match nat? r, nat? m with
+    | some r, some m => if r < d.succs.length then ({ d with succs := d.succs.set r m }, "ok") else (d, "bad-op")
+    | _, _ => (d, "bad-op")
+  | ["put", p, v] => match nat? p, nat? v with
+    | some p, some v =>
+      match jqStep d.st (.put p v) with
+      | (s1, .ok spawn) =>
+        let fuel := (s1.ports.map List.length).foldl (· + ·) 2
+        let (s2, dl) := if spawn then jqFwd d.succs fuel s1 [] else (s1, [])
+        ({ d with st := s2 }, s!"1 ; {spaceSep dl} ; {jqDump s2}")
+      | (_, .ub) => (d, "ub")
+      | _ => (d, "bad-op")
+    | _, _ => (d, "bad-op")
+  | ["get"] =>
+    match jqStep d.st (.fwd true) with
+    | (s1, .tuple t _) =>
+      -- tuple_accepted may re-arm the counter to 0 and spawn a forward task
+      let fuel := (s1.ports.map List.length).foldl (· + ·) 2
+      let (s2, dl) := if s1.pwni == 0 then jqFwd d.succs fuel s1 [] else (s1, [])
+      ({ d with st := s2 }, s!"{showTuple t} ; {spaceSep dl} ; {jqDump s2}")
+    | (s1, _) => ({ d with st := s1 }, s!"- ; - ; {jqDump s1}")
+  | _ => (d, "bad-op")
+
+/-! ### c15jk — key_matching join_node (key = v / 8 on every port) -/
+
+def keyOf (v : Nat) : Nat := v / 8
+
+structure JkD where
+  st    : JkSt := jkInit 2
+  succs : List Nat := []
+
+def sortPairs (a : Assoc) : Assoc := (a.toArray.qsort (fun x y => x.1 < y.1)).toList
+
+def jkDump (s : JkSt) : String :=
+  let tbl := fun (a : Assoc) => commaSep ((sortPairs a).map (fun kv => s!"{kv.1}={kv.2}"))
+  s!"{commaSep (s.outbuf.map showTuple)} | {tbl s.counts} | " ++ " / ".intercalate (s.ports.map tbl)
+
+def jkFwd (succs : List Nat) : Nat → JkSt → List String → JkSt × List String
+  | 0, s, dl => (s, dl)
+  | fuel + 1, s, dl =>
+    match s.outbuf with
+    | [] => (s, dl)
+    | t :: _ =>
+      let who := allAcc succs (tsum t)
+      if who.isEmpty then (s, dl)
+      else jkFwd succs fuel (jkStep keyOf s (.fwd true)).1 (dl ++ who.map (fun r => s!"r{r}:{showTuple t}"))
+
+def driveJk (d : JkD) (ws : List String) : JkD × String :=
+  match ws with
+  | "reset" :: n :: ms => match nat? n, nats? ms with
+    | some n, some ms => if n = 2 ∨ n = 3 then ({ st := jkInit n, succs := ms }, "ok") else (d, "bad-op")
+    | _, _ => (d, "bad-op")
+  | ["mode", r, m] => match nat? r, nat? m with
+    | some r, some m => if r < d.succs.length then ({ d with succs := d.succs.set r m }, "ok") else (d, "bad-op")
+    | _, _ => (d, "bad-op")
+  | ["put", p, v] => match nat? p, nat? v with
+    | some p, some v =>
+      let wasEmpty := d.st.outbuf.isEmpty
+      match jkStep keyOf d.st (.put p v) with
+      | (s1, .ok filled) =>
+        let (s2, dl) := if filled && wasEmpty then jkFwd d.succs (s1.outbuf.length + 1) s1 [] else (s1, [])
+        ({ d with st := s2 }, s!"1 ; {spaceSep dl} ; {jkDump s2}")
+      | (s1, .none) => ({ d with st := s1 }, s!"0 ; - ; {jkDump s1}")
+      | (_, .ub) => (d, "ub")
+      | _ => (d, "bad-op")
+    | _, _ => (d, "bad-op")
+  | ["get"] =>
+    match jkStep keyOf d.st (.fwd true) with
+    | (s1, .tuple t _) => ({ d with st := s1 }, s!"{showTuple t} ; - ; {jkDump s1}")
+    | (s1, _) => ({ d with st := s1 }, s!"- ; - ; {jkDump s1}")
+  | _ => (d, "bad-op")
+
+/-! ### c15jr — reserving join_node fed by scripted senders -/
+
+structure JrD where
+  n     : Nat := 2
+  st    : JrSt := { n := 2, resv := [false, false] }
+  avail : List (Option Nat) := [none, none]     -- what each sender currently holds
+  regd  : List Bool := [false, false]           -- is the sender in the port's predecessor cache (pull edge)
+  pwni  : Nat := 2                              -- ports_with_no_inputs
+  succs : List Nat := []
+
+def showEv : JrEv → String
+  | .reserve p v => s!"res{p}:{v}"
+  | .release p => s!"rel{p}"
+  | .consume p => s!"con{p}"
+
+/-- which port's reservation failed (highest index without an item), if any -/
+def jrFailPort (avail : List (Option Nat)) : Nat → Option Nat
+  | 0 => none
+  | k + 1 => if (avail.getD k none).isNone then some k else jrFailPort avail k
+
+/-- `do_fwrd_bypass` / `try__get`: attempts while tuples are built and accepted.  `pull` = a successor's
+try_get (the tuple is accepted by construction, one attempt only). -/
+def jrFwd (pull : Bool) : Nat → JrD → List String → List String → JrD × List String × List String × Option (List Nat)
+  | 0, d, evs, dl => (d, evs, dl, none)
+  | fuel + 1, d, evs, dl =>
+    if d.pwni ≠ 0 then (d, evs, dl, none) else
+    match jrFailPort d.avail d.n with
+    | some k =>
+      -- reservation of port k fails: the sender is dropped from the cache (back to push mode) and the
+      -- port reports "no inputs"
+      let (s1, o) := jrStep d.st (d.avail, false)
+      let es := match o with | .none es => es | .tuple _ _ es => es
+      ({ d with st := s1, regd := d.regd.set k false, pwni := d.pwni + 1 }, evs ++ es.map showEv, dl, none)
+    | none =>
+      let t := d.avail.map (·.getD 0)
+      let who := if pull then [0] else allAcc d.succs (tsum t)
+      let (s1, o) := jrStep d.st (d.avail, !who.isEmpty)
+      let es := match o with | .none es => es | .tuple _ _ es => es
+      if who.isEmpty then ({ d with st := s1 }, evs ++ es.map showEv, dl, none)
+      else
+        let d1 := { d with st := s1, avail := d.avail.map (fun _ => none) }
+        if pull then (d1, evs ++ es.map showEv, dl, some t)
+        else jrFwd pull fuel d1 (evs ++ es.map showEv) (dl ++ who.map (fun r => s!"r{r}:{showTuple t}"))
+
+def jrDump (d : JrD) : String :=
+  s!"{d.pwni} | {commaSep (d.avail.map (fun a => match a with | some v => toString v | none => "_"))} | {String.join (d.regd.map showBool)} | {String.join (d.st.resv.map showBool)}"
+
+def driveJr (d : JrD) (ws : List String) : JrD × String :=
+  match ws with
+  | "reset" :: n :: ms => match nat? n, nats? ms with
+    | some n, some ms =>
+      if n = 2 ∨ n = 3 then
+        ({ n := n, st := { n := n, resv := List.replicate n false }, avail := List.replicate n none,
+           regd := List.replicate n false, pwni := n, succs := ms }, "ok")
+      else (d, "bad-op")
+    | _, _ => (d, "bad-op")
+  | ["mode", r, m] => match nat? r, nat? m with
+    | some r, some m => if r < d.succs.length then ({ d with succs := d.succs.set r m }, "ok") else (d, "bad-op")
+    | _, _ => (d, "bad-op")
+  | ["offer", p, v] => match nat? p, nat? v with
+    | some p, some v =>
+      if p < d.n ∧ (d.avail.getD p none).isNone then
+        let d1 := { d with avail := d.avail.set p (some v) }
+        if d.regd.getD p false then (d1, s!"ok ; - ; - ; {jrDump d1}")
+        else
+          -- the sender registers as predecessor: reg_pred → decrement_port_count
+          let d2 := { d1 with regd := d1.regd.set p true, pwni := d1.pwni - 1 }
+          let (d3, evs, dl, _) := if d2.pwni == 0 then jrFwd false 4 d2 [] [] else (d2, [], [], none)
+          (d3, s!"ok ; {spaceSep evs} ; {spaceSep dl} ; {jrDump d3}")
+      else (d, "bad-op")
+    | _, _ => (d, "bad-op")
+  | ["get"] =>
+    let (d1, evs, _, t) := jrFwd true 1 d [] []
+    (d1, s!"{match t with | some t => showTuple t | none => "-"} ; {spaceSep evs} ; - ; {jrDump d1}")
+  | _ => (d, "bad-op")
+
+/-! ### c15ow — overwrite_node / write_once_node -/
+
+structure OwD where
+  once  : Bool := false
+  st    : OwSt := {}
+  modes : List Nat := []       -- verdict mode of every receiver ever created (index = id)
+
+def owDump (s : OwSt) : String :=
+  s!"{match s.buf with | some v => toString v | none => "_"} | {commaSep (s.succs.map toString)}"
+
+def driveOw (d : OwD) (ws : List String) : OwD × String :=
+  match ws with
+  | ["reset", once] => match nat? once with
+    | some o => ({ once := o != 0, st := {}, modes := [] }, "ok")
+    | none => (d, "bad-op")
+  | ["mode", r, m] => match nat? r, nat? m with
+    | some r, some m => if r < d.modes.length then ({ d with modes := d.modes.set r m }, "ok") else (d, "bad-op")
+    | _, _ => (d, "bad-op")
+  | ["reg", m] => match nat? m with
+    | some m =>
+      let r := d.modes.length
+      let a := match d.st.buf with | some v => accepts m v | none => true
+      let (s1, o) := owStep d.once d.st (.reg r a)
+      let dl := match d.st.buf, o with | some v, .ok => [s!"r{r}:{v}"] | _, _ => []
+      ({ d with st := s1, modes := d.modes ++ [m] }, s!"ok ; {spaceSep dl} ; {owDump s1}")
+    | none => (d, "bad-op")
+  | ["put", v] => match nat? v with
+    | some v =>
+      let leave := d.st.succs.filter (fun r => !accepts (d.modes.getD r 0) v)
+      match owStep d.once d.st (.put v leave) with
+      | (s1, .ok) =>
+        let dl := (d.st.succs.filter (fun r => accepts (d.modes.getD r 0) v)).map (fun r => s!"r{r}:{v}")
+        ({ d with st := s1 }, s!"1 ; {spaceSep dl} ; {owDump s1}")
+      | (s1, _) => ({ d with st := s1 }, s!"0 ; - ; {owDump s1}")
+    | none => (d, "bad-op")
+  | ["get"] =>
+    match owStep d.once d.st .get with
+    | (_, .item v) => (d, s!"{v} ; - ; {owDump d.st}")
+    | _ => (d, s!"- ; - ; {owDump d.st}")
+  | ["clear"] => let s1 := (owStep d.once d.st .clear).1; ({ d with st := s1 }, s!"ok ; - ; {owDump s1}")
+  | _ => (d, "bad-op")
+
+/-! ### c15misc — broadcast_node / split_node / indexer_node -/
+
+structure MiscD where
+  succs : List Nat := []
+
+def driveMisc (d : MiscD) (ws : List String) : MiscD × String :=
+  match ws with
+  | "reset" :: ms => match nats? ms with
+    | some ms => ({ succs := ms }, "ok")
+    | none => (d, "bad-op")
+  | ["bput", v] => match nat? v with
+    | some v =>
+      let offers := broadcastPut (List.range d.succs.length) v
+      let dl := (offers.filter (fun rv => accepts (d.succs.getD rv.1 1) rv.2)).map (fun rv => s!"r{rv.1}:{rv.2}")
+      (d, s!"1 ; {spaceSep dl}")
+    | none => (d, "bad-op")
+  | "sput" :: vs => match nats? vs with
+    | some vs => if vs.length = 3 then (d, s!"1 ; {spaceSep ((splitPut vs).map (fun pv => s!"p{pv.1}:{pv.2}"))}") else (d, "bad-op")
+    | none => (d, "bad-op")
+  | ["iput", p, v] => match nat? p, nat? v with
+    | some p, some v =>
+      if p < 3 then
+        let offers := indexerPut (List.range d.succs.length) p v
+        let dl := (offers.filter (fun x => accepts (d.succs.getD x.1 1) x.2.2)).map (fun x => s!"r{x.1}:({x.2.1},{x.2.2})")
+        (d, s!"{showBool (!dl.isEmpty)} ; {spaceSep dl}")
+      else (d, "bad-op")
+    | _, _ => (d, "bad-op")
+  | _ => (d, "bad-op")
+
+end C15Drv
+
+open C15Drv in
+def drivers : List (String × Proto.Driver) := [
+  ("c15ib",   { σ := IbD,   init := {}, step := driveIb }),
+  ("c15buf",  { σ := NodeD, init := {}, step := driveBuf }),
+  ("c15prio", { σ := PrioD, init := {}, step := drivePrio }),
+  ("c15lim",  { σ := LimD,  init := {}, step := driveLim }),
+  ("c15lq",   { σ := LqD,   init := {}, step := driveLq }),
+  ("c15jq",   { σ := JqD,   init := {}, step := driveJq }),
+  ("c15jk",   { σ := JkD,   init := {}, step := driveJk }),
+  ("c15jr",   { σ := JrD,   init := {}, step := driveJr }),
+  ("c15ow",   { σ := OwD,   init := {}, step := driveOw }),
+  ("c15misc", { σ := MiscD, init := {}, step := driveMisc })
+]
 
 def main (args : List String) : IO UInt32 := Proto.mainOf drivers args
